@@ -19,9 +19,12 @@ configuration while a handler on ``vgi_rpc.access`` (INFO or DEBUG) formats ever
 
 from __future__ import annotations
 
+import contextlib
+import io
 import itertools
 from typing import Any
 
+import pyarrow as pa
 from hypothesis import strategies as st
 
 from lib import c34_oracle as O
@@ -63,7 +66,6 @@ MSGS = st.one_of(
     st.sampled_from(
         [
             "",
-            "",
             " ",
             "boom",
             "ünïcödé ✓ 漢字 🎉",
@@ -98,7 +100,8 @@ def _actions(spec: dict[str, Any]) -> list[tuple[dict[str, Any], str]]:
 
 @st.composite
 def histories(draw: st.DrawFn) -> dict[str, Any]:
-    spec = draw(programs.program_specs(faults=True, early_exit=True, max_methods=3, max_calls=5))
+    init_faults = draw(st.integers(0, 3)) == 0
+    spec = draw(programs.program_specs(faults=True, init_faults=init_faults, early_exit=True, max_methods=3, max_calls=5))
     for holder, key in _actions(spec):
         act = holder[key]
         if act["op"] == "raise":
@@ -125,6 +128,18 @@ def _model_error_text(spec: dict[str, Any], call: dict[str, Any], model: dict[st
     if me is None or "type" not in me:
         return None
     return me["type"], me["text"]
+
+
+def _expected(e_type: str | None, e_text: str | None, mtext: tuple[str, str] | None) -> tuple[str | None, str]:
+    """Full server-side text a failure record must carry, and where it comes from.
+
+    The program spec's own text is used when the failure the client saw is the program's raise (same class, and
+    the text the client received is a prefix of it — a different failure of the same class, e.g. a response-cap
+    overshoot RuntimeError, keeps the text the wire carried).
+    """
+    if mtext is not None and mtext[0] == e_type and (e_text is None or mtext[1].startswith(e_text)):
+        return mtext[1], "str(exc) from the program spec"
+    return e_text, "text seen by the client"
 
 
 def _check_message(out: Outcome, rec: dict[str, Any], text: str | None, where: str, source: str) -> None:
@@ -173,35 +188,31 @@ def _stream_id_shared(out: Outcome, recs: list[dict[str, Any]], where: str) -> N
         out.fail(f"stream_id_not_shared/{where}", f"{len(recs)} records of one stream call carry {len(ids)} different stream_ids")
 
 
-def _call_level(out: Outcome, recs: list[dict[str, Any]], obs: dict[str, Any], model: dict[str, Any], mtext: tuple[str, str] | None, where: str) -> None:
-    """Checks that hold on every transport: client error ⇒ logged error with the model's text; clean complete call ⇒ all ok."""
+def _call_level(out: Outcome, recs: list[dict[str, Any]], obs: dict[str, Any], model: dict[str, Any], mtext: tuple[str, str] | None, where: str, reported: bool = False) -> None:
+    """Checks that hold on every transport: client error ⇒ a logged error of that type; clean complete call ⇒ all ok."""
     e = obs.get("error_obj")
     errs = [r for r in recs if r.get("status") == "error"]
     if e is not None:
         if "max_response_bytes" in e.error_message:
             out.label("cap_overshoot_error")
-        typed = [r for r in errs if r.get("error_type") == e.error_type]
+        if not recs or reported:
+            return  # already reported (missing record / per-response status mismatch)
         if not errs:
             out.fail(f"status_mismatch/{where}/client_error_logged_ok", f"client saw {e.error_type}: {e.error_message[:120]!r} but no record of the call has status=error ({[r.get('status') for r in recs]})")
-        elif not typed:
+        elif not any(r.get("error_type") == e.error_type for r in errs):
             out.fail(f"error_type_mismatch/{where}", f"client saw {e.error_type}, records carry {[r.get('error_type') for r in errs]}")
-        elif mtext is not None and mtext[0] == e.error_type:
-            for r in typed:
-                _check_message(out, r, mtext[1], where, "str(exc) from the program spec")
+    elif obs.get("client_exc") is not None:
+        return
     elif model["complete"] and model["error"] is None:
         bad = [r for r in errs if r.get("cancelled") is not True]
         if bad:
             out.fail(f"status_mismatch/{where}/client_ok_logged_error", f"call completed cleanly, record says error: {bad[0].get('error_type')}: {str(bad[0].get('error_message'))[:120]!r}")
     else:
         # early exit (or a lazily-initialised stream never read): an error the client did not wait for may be
-        # logged, but only the one the program actually raises
+        # logged, but only one the program actually produces on this path
         for r in errs:
-            if r.get("cancelled") is True:
-                continue
-            if model["error"] is None:
+            if r.get("cancelled") is not True and model["error"] is None:
                 out.fail(f"ghost_error/{where}", f"program has no failure on this path, record says {r.get('error_type')}: {str(r.get('error_message'))[:120]!r}")
-            elif mtext is not None and r.get("error_type") == mtext[0]:
-                _check_message(out, r, mtext[1], where, "str(exc) from the program spec")
 
 
 def _segments(events: list[dict[str, Any]]) -> list[list[dict[str, Any]]]:
@@ -248,18 +259,25 @@ def run_case(case: dict[str, Any]) -> Outcome:
     with O.capture(case["level"], case["fmt_cap"]) as cap:
         protocol, impl, _ = programs.build_service(spec, run_id)
         try:
-            with transports.open_transport(cfg, protocol, impl) as conn:
+            # Falcon prints unhandled-exception tracebacks to wsgi.errors (= sys.stderr); keep the check quiet
+            with contextlib.redirect_stderr(io.StringIO()) if http else contextlib.nullcontext(), transports.open_transport(cfg, protocol, impl) as conn:
                 proxy_cm = None
                 rec_client = None
                 if http:
-                    rec_client = O.RecordingClient(conn.extras["client"])
+                    rec_client = O.RecordingClient(conn.extras["client"], mark=lambda: len(cap.lines))
                     level = None if cfg["comp"] == "off" else 1
                     proxy_cm = http_connect(protocol, client=rec_client, on_log=conn.logs.append, compression_level=level)
                     conn.proxy = proxy_cm.__enter__()
                 try:
                     for call in calls:
                         n0 = len(rec_client.responses) if rec_client else 0
-                        observations.append(transports.observe_call(conn, spec, call))
+                        try:
+                            observations.append(transports.observe_call(conn, spec, call))
+                        except pa.ArrowInvalid as ex:
+                            # the client could not parse the response at all (non-Arrow body): an observed failure
+                            # without RpcError details
+                            out.label("client_unparsable_response")
+                            observations.append({"error": {"type": "?", "message": str(ex)}, "error_obj": None, "batches": [], "client_exc": ex})
                         spans.append((n0, len(rec_client.responses) if rec_client else 0))
                 finally:
                     if proxy_cm is not None:
@@ -286,29 +304,31 @@ def run_case(case: dict[str, Any]) -> Outcome:
     checked: set[int] = set()  # ids of records that got the schema check together with an expected text
 
     if http:
-        by_rid: dict[str, list[dict[str, Any]]] = {}
-        for r in records:
-            by_rid.setdefault(str(r.get("request_id", "")), []).append(r)
-        claimed: set[str] = set()
+        # The in-process HTTP client is synchronous, so the records of one POST are exactly the lines captured
+        # while that POST ran (the sentinel form legitimately drops request_id, so a request-id join is not enough).
+        if len(records) != len(cap.lines):
+            return out  # unparsable line already reported
+        claimed: set[int] = set()
         resp_call: dict[int, int] = {}
         for ci, (a, b) in enumerate(spans):
             for i in range(a, b):
                 resp_call[i] = ci
         per_call: list[list[dict[str, Any]]] = [[] for _ in calls]
+        mismatched: set[int] = set()
         for i, resp in enumerate(responses):
             method, endpoint = O.endpoint_of(resp["url"])
-            rid = resp["headers"].get("x-request-id")
             where = f"http/{endpoint}"
-            if rid is None:
-                out.label("response_without_request_id")
-                continue
-            recs = by_rid.get(rid, [])
-            claimed.add(rid)
+            lo, hi = resp["lines"]
+            recs = records[lo:hi]
+            claimed.update(range(lo, hi))
+            rid = resp["headers"].get("x-request-id")
+            if rid is not None and any("request_id" in r and r["request_id"] != rid for r in recs):
+                out.label("request_id_differs_from_header")
             if 400 <= resp["status"] < 500 and not recs:
                 out.label(f"predispatch_{resp['status']}")
                 continue
             if len(recs) != 1:
-                out.fail(f"record_count/{where}/{'none' if not recs else 'many'}", f"POST {resp['url']} -> {resp['status']} has {len(recs)} access-log records (request_id join)")
+                out.fail(f"record_count/{where}/{'none' if not recs else 'many'}", f"POST {resp['url']} -> {resp['status']} has {len(recs)} access-log records (lines captured while the POST ran)")
                 if not recs:
                     continue
             ci = resp_call.get(i)
@@ -321,9 +341,7 @@ def run_case(case: dict[str, Any]) -> Outcome:
                     per_call[ci].append(rec)
                 checked.add(id(rec))
                 cancel = rec.get("cancelled") is True
-                exp_text = wire_text
-                if ci is not None and mtexts[ci] is not None and wire_type == mtexts[ci][0] and wire_text == mtexts[ci][1]:
-                    exp_text = mtexts[ci][1]
+                exp_text, source = _expected(wire_type, wire_text, mtexts[ci] if ci is not None else None)
                 _check_schema(out, rec, exp_text if wire_err else None, where)
                 if rec.get("method") != method:
                     out.fail(f"method_mismatch/{where}", f"POST {resp['url']} logged as method {rec.get('method')!r}")
@@ -331,24 +349,27 @@ def run_case(case: dict[str, Any]) -> Outcome:
                 if rec.get("method_type") != want_type:
                     out.fail(f"method_type_mismatch/{where}", f"POST {resp['url']} logged as method_type {rec.get('method_type')!r}")
                 if not cancel and (rec.get("status") == "error") != wire_err:
+                    shape = "wire_ok_logged_error" if not wire_err else "wire_error_logged_ok" if excs else "unhandled_5xx_logged_ok"
+                    if ci is not None:
+                        mismatched.add(ci)
                     out.fail(
-                        f"status_mismatch/{where}/{'wire_error_logged_ok' if wire_err else 'wire_ok_logged_error'}",
+                        f"status_mismatch/{where}/{shape}",
                         f"POST {resp['url']} -> {resp['status']} x-vgi-rpc-error={resp['headers'].get('x-vgi-rpc-error')!r} exceptions={excs!r}; record status={rec.get('status')!r}",
                     )
                 if wire_err and rec.get("status") == "error":
                     if wire_type is not None and rec.get("error_type") != wire_type:
                         out.fail(f"error_type_mismatch/{where}", f"wire says {wire_type}, record says {rec.get('error_type')!r}")
-                    _check_message(out, rec, wire_text, where, "exception_message on the wire")
+                    _check_message(out, rec, exp_text, where, source)
                 if case["level"] == "DEBUG" and endpoint in ("unary", "init") and ci is not None:
                     _check_request_data(out, rec, spec, calls[ci], where)
-        for rid, recs in by_rid.items():
-            if rid not in claimed and any(not str(r.get("method", "")).startswith("__") for r in recs):
-                out.fail("orphan_record/http", f"{len(recs)} record(s) with request_id {'<absent>' if not rid else '<unmatched>'} for method {recs[0].get('method')!r} match no POST of the history")
+        for i, r in enumerate(records):
+            if i not in claimed and not str(r.get("method", "")).startswith("__"):
+                out.fail("orphan_record/http", f"record for method {r.get('method')!r} was emitted outside every POST of the history")
         for ci, call in enumerate(calls):
             kind = spec["methods"][call["mid"]]["kind"]
             where = f"http/{kind}"
             _stream_id_shared(out, per_call[ci], where)
-            _call_level(out, per_call[ci], observations[ci], models[ci], mtexts[ci], where)
+            _call_level(out, per_call[ci], observations[ci], models[ci], mtexts[ci], where, reported=ci in mismatched)
             if len(per_call[ci]) >= 2:
                 out.label("multi_record_stream")
     else:
@@ -400,21 +421,21 @@ def run_case(case: dict[str, Any]) -> Outcome:
                             out.fail(f"record_count/{where}/neither_one_nor_per_turn", f"stream call of {name}: process() ran {n_proc}×, {n} records")
                     e = observations[ci].get("error_obj")
                     exp_text: str | None = None
+                    source = "-"
                     if e is not None:
                         prefix = f"{e.error_type}: "
-                        exp_text = e.error_message[len(prefix):] if e.error_message.startswith(prefix) else None
-                        if mtexts[ci] is not None and mtexts[ci][0] == e.error_type:
-                            exp_text = mtexts[ci][1]
+                        seen = e.error_message[len(prefix):] if e.error_message.startswith(prefix) else None
+                        exp_text, source = _expected(e.error_type, seen, mtexts[ci])
                     elif mtexts[ci] is not None:
-                        exp_text = mtexts[ci][1]
+                        exp_text, source = mtexts[ci][1], "str(exc) from the program spec"
                     for rec in grp:
                         checked.add(id(rec))
                         _check_schema(out, rec, exp_text if rec.get("status") == "error" else None, where)
                         want_type = "unary" if kind == "unary" else "stream"
                         if rec.get("method_type") != want_type:
                             out.fail(f"method_type_mismatch/{where}", f"{name} logged as method_type {rec.get('method_type')!r}")
-                        if e is not None and rec.get("status") == "error" and rec.get("error_type") == e.error_type:
-                            _check_message(out, rec, exp_text, where, "RpcError seen by the client" if mtexts[ci] is None else "str(exc) from the program spec")
+                        if rec.get("status") == "error" and (e is None or rec.get("error_type") == e.error_type) and (e is not None or (mtexts[ci] is not None and rec.get("error_type") == mtexts[ci][0])):
+                            _check_message(out, rec, exp_text, where, source)
                         if case["level"] == "DEBUG":
                             _check_request_data(out, rec, spec, call, where)
                     _stream_id_shared(out, grp, where)
